@@ -556,7 +556,7 @@ def corpus_cases():
 
 def describe(ctx):
     ctx.extra["float_rule"] = "|x - p/q| <= 1e-9*max(1,|p/q|); NaN <-> undefined"
-    ctx.rule = ("fixed corpus first (corpus/C15: closures and partial closures of 4-7 node faces, three overlapping 5-node faces, empty edges, min_size 1-6, both "
+    ctx.rule = ("fixed corpus first (corpus/C15: closures and partial closures of 4-7 node faces, three overlapping 5-node faces, empty edges, min_size 1-6 - and three min_size = 0 inputs for the correspondence -, both "
                 "exclude_min_size); hypergraphs without repeated edges: small scope (<=4 nodes, <=3 edges; exhaustive in the thorough tier), random ones on "
                 "<=6 nodes (edge size <=5, isolated nodes, int or str labels, shuffled node order, mixed edge IDs, 10% with an empty edge), 35% of them (partial) downward closures, "
                 "and 'big-face' inputs (1-3 faces of 4-7 nodes over 5-7 nodes with most sub-faces above a random size, often a closure with one sub-face "
